@@ -63,7 +63,7 @@ func c12(r *Report, s *Sem) {
 	R2 := r.Rule("R2", "reader progress: a Read wrapper never discards a positive inner count: every return after the inner call reports that count, and a retry is taken only on the edge count <= 0", 2)
 	R3 := r.Rule("R3", "retry only on transient timeouts: the path back to the inner call crosses the true edges of Timeout() and Temporary() of that call's error, and re-checks the context before retrying", 4)
 	R4 := r.Rule("R4", "single byte path: the raw connection's Read/Write are invoked only by the wrappers; the JSON encoder/decoder of a TCP transport are created only in one function, over that wrapper (through the limited reader / optional tee); that function runs at construction and after a successful TLS handshake only", 5)
-	R5 := r.Rule("R5", "error surfacing: every Encode/Decode error is returned by Send/Receive, the end-of-stream flag is set on the io.EOF edge in both, and Connected() reads it", 5)
+	R5 := r.Rule("R5", "error surfacing: every Encode/Decode error is returned by Send/Receive, the end-of-stream flag is set on the io.EOF edge in both, and Connected() reads it; a successful Encode/Decode is reported as success (Send returns nil, Receive returns the converted envelope)", 7)
 
 	ws := ioWrappers(p)
 	if len(ws) < 2 {
@@ -317,6 +317,38 @@ func c12(r *Report, s *Sem) {
 				}
 			}})
 		r.Check(R5, "func "+fnName(fn)+" / "+m.op+" error is returned", p.instrPos(op), okErr, "a failed or cut operation must surface as an error, never as success")
+		// … and conversely: once the codec call succeeded the envelope is on the wire / out of the stream, so the
+		// operation reports exactly that (Send: nil; Receive: the converted value, never a bare error that drops it)
+		okOK, whyOK := true, ""
+		walkFrom(fn, op, walkOpts{
+			cutEdge: func(from *ssa.BasicBlock, k int) bool {
+				ifi := ifOf(from)
+				if ifi == nil {
+					return false
+				}
+				isNil, ok := errTestOf(ifi, k == 0, op)
+				return ok && !isNil
+			},
+			onExit: func(e ssa.Instruction, pred *ssa.BasicBlock) {
+				ret, ok := e.(*ssa.Return)
+				if !ok {
+					return
+				}
+				if m.name == "Send" {
+					for _, l := range leaves(ret.Results[len(ret.Results)-1]) {
+						if !isNilConst(stripConv(l)) {
+							okOK, whyOK = false, "an error can be returned at "+p.instrPos(ret)+" although the envelope was written"
+						}
+					}
+					return
+				}
+				for _, l := range returnLeavesOf(ret, 0) {
+					if isNilConst(stripConv(l)) {
+						okOK, whyOK = false, "a nil envelope can be returned at "+p.instrPos(ret)+" although one was taken out of the stream: the receiver sees a gap"
+					}
+				}
+			}})
+		r.Check(R5, "func "+fnName(fn)+" / a successful "+m.op+" is reported as such", p.instrPos(op), okOK, whyOK)
 		okEOF := false
 		isEOFTest := func(v ssa.Value) bool {
 			call, _ := callOf(v)
@@ -749,7 +781,68 @@ func c16(r *Report, s *Sem) {
 			continue
 		}
 		tRoot := pathOf(bind.Common().Args[0]).Root
-		cfgOK := false
+		// a value carries the configured limit when it is (a copy of) configuration handed in — a parameter's or a
+		// global's field — or a local literal whose ReadLimit is stored from such a value
+		var carries func(l ssa.Value, d int) bool
+		carries = func(l ssa.Value, d int) bool {
+			l = stripConv(l)
+			lp := pathOf(l)
+			if _, isParam := lp.Root.(*ssa.Parameter); isParam {
+				return true
+			}
+			if _, isGlobal := lp.Root.(*ssa.Global); isGlobal {
+				return true
+			}
+			if u, ok := l.(*ssa.UnOp); ok && u.Op == token.MUL && d < 4 {
+				if _, isPhi := stripConv(u.X).(*ssa.Phi); isPhi {
+					// *cfg with cfg = the caller's pointer or the address of the package default
+					n, all := 0, true
+					for _, pl := range leaves(u.X) {
+						n++
+						switch pathOf(pl).Root.(type) {
+						case *ssa.Parameter, *ssa.Global:
+						default:
+							if _, isG := stripConv(pl).(*ssa.Global); !isG {
+								all = false
+							}
+						}
+					}
+					return n > 0 && all
+				}
+				if al, ok := stripConv(u.X).(*ssa.Alloc); ok {
+					sts := storesInto(al, rlF.Name())
+					if len(sts) == 0 {
+						// a whole-value store into the local
+						n, all := 0, true
+						for _, ref := range *al.Referrers() {
+							if st, ok := ref.(*ssa.Store); ok && st.Addr == ssa.Value(al) {
+								n++
+								for _, l2 := range leaves(st.Val) {
+									if !carries(l2, d+1) {
+										all = false
+									}
+								}
+							}
+						}
+						return n > 0 && all
+					}
+					for _, st := range sts {
+						for _, l2 := range leaves(st.Val) {
+							if !carries(l2, d+1) {
+								return false
+							}
+						}
+					}
+					return true
+				}
+			}
+			return false
+		}
+		type cfgStore struct {
+			st   *ssa.Store
+			good bool
+		}
+		var stores []cfgStore
 		eachInstr(mk.fn, func(in ssa.Instruction) {
 			st, ok := in.(*ssa.Store)
 			if !ok || !instrDominates(st, bind) {
@@ -761,25 +854,31 @@ func c16(r *Report, s *Sem) {
 			}
 			last := ap.Last()
 			if last == rlF || (last.Embedded() && last.Name() == "TCPConfig") {
-				// from configuration: parameter config or the listener's own config
-				var cands []ssa.Value
+				good, n := true, 0
 				for _, l := range leaves(st.Val) {
-					cands = append(cands, l)
-					if u, ok := stripConv(l).(*ssa.UnOp); ok && u.Op == token.MUL {
-						cands = append(cands, leaves(u.X)...)
+					n++
+					if !carries(l, 0) {
+						good = false
 					}
 				}
-				for _, l := range cands {
-					lp := pathOf(l)
-					if _, isParam := lp.Root.(*ssa.Parameter); isParam {
-						cfgOK = true
-					}
-					if _, isGlobal := lp.Root.(*ssa.Global); isGlobal {
-						cfgOK = true
-					}
-				}
+				stores = append(stores, cfgStore{st, good && n > 0})
 			}
 		})
+		cfgOK := false
+		for _, g := range stores {
+			if !g.good {
+				continue
+			}
+			overridden := false
+			for _, o := range stores {
+				if !o.good && o.st != g.st && instrDominates(g.st, o.st) {
+					overridden = true
+				}
+			}
+			if !overridden {
+				cfgOK = true
+			}
+		}
 		r.Check(R4, "func "+fnName(mk.fn)+" / configured ReadLimit copied before the connection is bound", p.instrPos(bind), cfgOK, "the new transport must carry the configured limit when its decoder is created")
 	}
 }
